@@ -41,6 +41,10 @@ MANIFEST = {
     "technique": "TLA+ model checking (TLC) + spec-to-implementation transition replay + trace validation",
 }
 
+class StopEarly(Exception):
+    pass
+
+
 def scratch_env():
     """Temporary databases go to tmpfs when there is one: a tree build costs ~25 ms of fsync latency on the
     disk and ~2 ms in memory, and nothing this property is about depends on durability."""
@@ -65,6 +69,8 @@ def probe_flags(ctx):
     """Which known defects does the code under test show?  They select the variant of the model."""
     s = core.run_driver("cursor_run", ["probe"], timeout=120, env=scratch_env())
     flags = s["extra"]["flags"]
+    if s["violation_count"]:
+        report(ctx, s, "probe")       # a probe that hangs or aborts
     ctx.cov["model_variant"] = flags
     ctx.cov["inverted_sites"] = s["extra"].get("inverted_sites")
     core.log("[c09] code under test shows: %s" % ", ".join(k for k, v in sorted(flags.items()) if v) or "[c09] none")
@@ -73,7 +79,8 @@ def probe_flags(ctx):
 
 def report(ctx, s, origin):
     """Driver summary -> verdicts.  The summary lists up to 3 violations per signature."""
-    ctx.add_driver(s)
+    ctx.add_driver(s, traces=origin != "probe")
+    stopped = s["extra"].get("stopped_early")
     classes = s["extra"].get("violation_classes", {})
     tot = ctx.cov.setdefault("violation_classes", {})
     for k, v in classes.items():
@@ -89,6 +96,11 @@ def report(ctx, s, origin):
                        "lo": v.get("lo"), "hi": v.get("hi"), "observed": v.get("observed"), "kind": v.get("kind"),
                        "origin": origin},
                       signature=sig, what=what)
+    if stopped:
+        # the code under test hangs or aborts again and again: the verdict is settled, every further
+        # case would cost a full timeout
+        core.log("[c09] driver stopped early (%s): skipping the remaining stages" % stopped)
+        raise StopEarly()
 
 
 def model_and_replay(ctx, name, flags, subst, mode="bfs", sim=None, depth=None, variants=2, timeout=1500):
@@ -211,6 +223,8 @@ SIM = {"NKeys": 6, "DataKeys": "{1, 2, 3, 4, 5}", "Kinds": '{"Set", "Del", "Soft
 def run(ctx):
     try:
         run_(ctx)
+    except StopEarly:
+        ctx.assumptions.append("run cut short: the code under test hung or aborted repeatedly")
     finally:
         scratch_cleanup()
 
@@ -220,7 +234,7 @@ def run_(ctx):
     flags = probe_flags(ctx)
     if ctx.quick:
         # overlay: everything in the active memtable, the write-set overlay in full
-        model_and_replay(ctx, "overlay", flags, dict(OVERLAY, MaxCommits=2, MaxWs=2, BoundPts="{2, 3}", MaxSteps=8), variants=1)
+        model_and_replay(ctx, "overlay", flags, dict(OVERLAY, MaxCommits=2, MaxWs=2, BoundPts="{3}", MaxSteps=8), variants=1)
         # mix: memtables + one table + one pending write, all shapes of bounds
         model_and_replay(ctx, "mix", flags, dict(MaxSteps=8), variants=2)
         # layers: no write-set; two rotations, two flushes, a compaction
@@ -231,16 +245,17 @@ def run_(ctx):
         model_and_replay(ctx, "sim", flags, SIM, mode="sim", sim=40, depth=34, variants=1)
         random_and_trace(ctx, 3000, 2)
     else:
-        model_and_replay(ctx, "overlay", flags, dict(OVERLAY, MaxCommits=3, MaxWs=2, BoundPts="{2, 3}", MaxSteps=10), variants=1)
-        model_and_replay(ctx, "overlay3", flags, dict(OVERLAY, MaxCommits=2, MaxWs=3, BoundPts="{2, 3}", MaxSteps=10,
-                                                      WsKinds='{"Set", "Del", "SoftDel"}'), variants=1)
-        model_and_replay(ctx, "mix", flags, dict(MaxCommits=2, MaxWs=2, MaxCompact=1, MaxSteps=10), variants=2)
+        # the same families, one or two steps deeper (sized so that the variant of the model without the
+        # known defects, whose behaviours are not cut short, still fits the budget)
+        model_and_replay(ctx, "overlay", flags, dict(OVERLAY, MaxCommits=3, MaxWs=2, BoundPts="{3}", MaxSteps=10), variants=1)
+        model_and_replay(ctx, "overlay3", flags, dict(OVERLAY, MaxCommits=2, MaxWs=3, BoundPts="{3}", MaxSteps=9), variants=1)
+        model_and_replay(ctx, "mix", flags, dict(MaxCommits=2, MaxWs=2, MaxCompact=1, MaxSteps=9), variants=2)
         model_and_replay(ctx, "layers", flags, dict(LAYERS, MaxCommits=2, MaxLate=1, MaxRotate=2, MaxFlush=2, MaxCompact=2,
-                                                    MaxSteps=12), variants=2)
-        model_and_replay(ctx, "layers3", flags, dict(LAYERS, MaxCommits=3, MaxCompact=1, MaxSteps=11,
+                                                    MaxSteps=11), variants=2)
+        model_and_replay(ctx, "layers3", flags, dict(LAYERS, MaxCommits=3, MaxCompact=1, MaxSteps=10,
                                                      Kinds='{"Set", "Del", "SoftDel"}'), variants=2)
         model_and_replay(ctx, "sim", flags, SIM, mode="sim", sim=1000, depth=34, variants=1)
-        random_and_trace(ctx, 60000, 8)
+        random_and_trace(ctx, 100000, 8)
     ctx.cov["exhaustive"] = True
     ctx.cov["rule"] = ("every transition TLC explores in the bounded Cursor models (distinct states expanded once; the op "
                        "history is hidden by the VIEW) is exported as a case and executed on a real Tree; random cases are "
@@ -274,4 +289,7 @@ def replay(ctx, doc):
     s = core.run_driver("cursor_run", ["one", f.name], timeout=300, env=scratch_env())
     scratch_cleanup()
     os.remove(f.name)
-    report(ctx, s, "replay")
+    try:
+        report(ctx, s, "replay")
+    except StopEarly:
+        pass
